@@ -372,7 +372,9 @@ func c02(c *core.Ctx, r *core.Report) {
 				if head != nil {
 					stop[head] = true
 				}
-				isNext := func(_ ssa.CallInstruction, t *ssa.Function) bool { return isMethod(t, workersPkg, "PoolManager", "NextIteration") }
+				isNext := func(_ ssa.CallInstruction, t *ssa.Function) bool {
+					return isMethod(t, workersPkg, "PoolManager", "NextIteration")
+				}
 				isRunOrLimit := func(ci ssa.CallInstruction, t *ssa.Function) bool {
 					if t == runner {
 						return true
